@@ -298,3 +298,31 @@ Contract(target=f'{TR}::TruncationError.from_norm', props=['C15'], name='Truncat
                                     [env['norm_new'], env['norm_old']], {}),
          ensures=['result.eps * norm_old * norm_old == norm_old * norm_old - norm_new * norm_new',
                   'result.ov == 1 - 2 * result.eps'])
+
+
+# further engines that inherit the drivers (the contract shows that no override in their MRO breaks the accounting)
+_acc_contract('run_evolution[SingleSiteTDVPEngine]', TDVP, 'SingleSiteTDVPEngine', {'trunc_err_list': List('real'), 'dt': Real()}, [],
+              {(f'{TDVP}::TDVPEngine.evolve', 0): {'inv': _INV_ACC + ['self.dt == dt'],
+                                                   'frame': {'self': ['trunc_err_list']}, 'ghost_mut': ['performed'], 'ghost_pre': _GP},
+               (f'{TDVP}::TDVPEngine.evolve', 1): {
+                   'inv': ['trunc_err.eps == t_eps0 + ssum(self.trunc_err_list, 0, _i)',
+                           'self.trunc_err.eps == te_in and self.evolved_time == et_in', 'self.dt == dt'],
+                   'lemmas': ['sum_unfold(self.trunc_err_list, 0, _i)', 'sum_unfold(self.trunc_err_list, 0, _i + 1)'],
+                   'ghost_pre': {'t_eps0': 'trunc_err.eps'}}})
+
+_acc_contract('run_evolution[QRBasedTEBDEngine]', TEBD, 'QRBasedTEBDEngine', {'_U_param': _UP()},
+              ["dt == self._U_param['delta_t'] and self._U_param['tau'] == dt"],
+              {(f'{TEBD}::TEBDEngine.evolve', 0): {'inv': _INV_ACC, 'frame': _FR, 'ghost_mut': ['performed'], 'ghost_pre': _GP}})
+
+_acc_contract('run_evolution[TimeDependentSingleSiteTDVP]', TDVP, 'TimeDependentSingleSiteTDVP',
+              {'trunc_err_list': List('real'), 'dt': Real()}, [],
+              {(f'{TDVP}::TDVPEngine.evolve', 1): {
+                  'inv': ['trunc_err.eps == t_eps0 + ssum(self.trunc_err_list, 0, _i)',
+                          'self.trunc_err.eps == te_in and self.evolved_time == et_in', 'self.dt == dt'],
+                  'lemmas': ['sum_unfold(self.trunc_err_list, 0, _i)', 'sum_unfold(self.trunc_err_list, 0, _i + 1)'],
+                  'ghost_pre': {'t_eps0': 'trunc_err.eps', 'te_in': 'self.trunc_err.eps', 'et_in': 'self.evolved_time'}},
+               (f'{ALG}::TimeDependentHAlgorithm.run_evolution', 0): {
+                   'inv': ['self.trunc_err.eps == old(self.trunc_err.eps) + (performed - old(performed))',
+                           'self.evolved_time == old(self.evolved_time) + _i * dt'],
+                   'frame': {'self': ['trunc_err', 'evolved_time', 'trunc_err_list', 'dt']}, 'ghost_mut': ['performed']}},
+              target=f'{ALG}::TimeDependentHAlgorithm.run_evolution')
